@@ -98,7 +98,7 @@ CONFIG = {
         "legs": [
             {"run": "^TestMarshal$", "quick": (3000, 2), "thorough": (80000, 4)},
             {"run": "^TestExportImportRaft$", "quick": (150, 3), "thorough": (4000, 4)},
-            {"run": "^TestExportImportCrdt$", "quick": (12, 4), "thorough": (400, 6)},
+            {"run": "^TestExportImportCrdt$", "quick": (8, 4), "thorough": (400, 6)},
             {"run": "^TestSnapshotOffline$", "quick": (300, 2), "thorough": (8000, 4)},
             {"run": "^TestBackups$", "quick": (300, 3), "thorough": (8000, 4)},
             {"run": "^TestPeerstoreRoundTrip$", "quick": (2000, 1), "thorough": (50000, 2)},
